@@ -59,7 +59,7 @@ def scenarios(ctx):
                     tags[w] = s.poll(w)
                 if hold and r == 0:
                     # everyone else is back; the held-back party arrives 40 ms later: nothing may complete before
-                    s.sleep(40)
+                    s.sleep(60)
                     tags[hold] = s.poll(hold)
                 s.wait(it)
             out.append(s.done())
